@@ -137,7 +137,7 @@ def miterTie (m : Circuit) (sp : List Name) : E Circuit :=
 def miterCompare (m : Circuit) (ep : List Name) : E Circuit :=
   ep.foldlM (fun m n => addC m { n := "dif_" ++ n, ty := "xor", fanin := ["c0_" ++ n, "c1_" ++ n], fanout := ["sat"] }) m
 
-/-- `tx.miter(c0, c1, startpoints, endpoints)`; `none`/empty arguments are falsy as in Python -/
+/-- `tx.miter(c0, c1, startpoints, endpoints)`; only `None` selects the default startpoints and endpoints (K51 repair); an empty `c1` is falsy as in Python -/
 def miter (c0 : Circuit) (c1? : Option Circuit) (sp? ep? : Option (List Name)) (ord : Ord) : E Circuit :=
   if !c0.bbs.isEmpty then .error .valueError else
   -- `c1 and c1.blackboxes`: an empty circuit is falsy
@@ -147,10 +147,10 @@ def miter (c0 : Circuit) (c1? : Option Circuit) (sp? ep? : Option (List Name)) (
     | none => c0
   if c0.nodes.any (fun p => p.2.ty.isNone) || c1.nodes.any (fun p => p.2.ty.isNone) then .error .keyError else
   let sp := match sp? with
-    | some l => if l.isEmpty then ord (inter c0.startpointsAll c1.startpointsAll) else l
+    | some l => l
     | none => ord (inter c0.startpointsAll c1.startpointsAll)
   let ep := match ep? with
-    | some l => if l.isEmpty then ord (inter c0.endpointsAll c1.endpointsAll) else l
+    | some l => l
     | none => ord (inter c0.endpointsAll c1.endpointsAll)
   let m0 : Circuit := { name := "miter_" ++ c0.name ++ "_" ++ c1.name }
   liftO (m0.addSubcircuit c0 "c0" []) >>= fun m1 =>
